@@ -245,6 +245,22 @@ fn unicodeify(src: &str) -> String {
     out
 }
 
+pub fn declares_enum_without_variants(text: &str) -> bool {
+    // comments may stand anywhere between the tokens
+    let stripped: String = text.lines().map(|l| l.split("//").next().unwrap_or("")).collect::<Vec<_>>().join("\n");
+    let mut rest = stripped.as_str();
+    while let Some(i) = rest.find("enum ") {
+        rest = &rest[i + 5..];
+        if let Some(j) = rest.find('{') {
+            let head = &rest[..j];
+            if !head.contains(';') && !head.contains('}') && rest[j + 1..].trim_start().starts_with('}') {
+                return true;
+            }
+        }
+    }
+    false
+}
+
 /// (viii) long chains of binary operators (20-64 operands), nested to the left, to the right or flat,
 /// over operands of one kind or of clashing kinds: the checker has special cases for `+` (strings,
 /// lists) and `/` (prefixes) in front of the arithmetic ones, and whatever it does per operator it
@@ -281,7 +297,32 @@ fn knots_and_duplicates(c: &mut Choices) -> String {
     let mut s = String::new();
     let n = 1 + c.below(4);
     for k in 0..n {
-        match c.below(16) {
+        match c.below(18) {
+            16 | 17 => {
+                // types without values (an enum without variants, alone or inside other types) in
+                // places where a value is stored; the code that would make one never returns
+                let _ = writeln!(s, "enum Ev{k} {{}}\nfn fv{k}(n: i32) -> Ev{k} {{ fv{k}(n) }}");
+                match c.below(6) {
+                    0 => {
+                        let _ = writeln!(s, "record Rv{k} {{ e: Ev{k}, s: String }}\nfn gv{k}(n: i32) -> i32 {{ if n > 0 {{ let r = Rv{k} {{ e: fv{k}(n), s: \"a\" }}; 1 }} else {{ 0 }} }}");
+                    }
+                    1 => {
+                        let _ = writeln!(s, "record Rv{k} {{ s: String, e: Ev{k}, t: u8 }}\nfn gv{k}(n: i32) -> u8 {{ if n > 0 {{ let r = Rv{k} {{ t: 1, e: fv{k}(n), s: \"a\" }}; r.t }} else {{ 0 }} }}");
+                    }
+                    2 => {
+                        let _ = writeln!(s, "fn gv{k}(n: i32) -> i32 {{ if n > 0 {{ let r = {{ a: 1, e: fv{k}(n) }}; r.a }} else {{ 0 }} }}");
+                    }
+                    3 => {
+                        let _ = writeln!(s, "enum Wv{k} {{ A(Ev{k}, String), B(String) }}\nfn gv{k}(n: i32) -> Wv{k} {{ if n > 0 {{ Wv{k}.A(fv{k}(n), \"x\") }} else {{ Wv{k}.B(\"y\") }} }}\nfn hv{k}() -> bool {{ gv{k}(0) == gv{k}(0) }}");
+                    }
+                    4 => {
+                        let _ = writeln!(s, "const Kv{k}: Option[Ev{k}] = Option.None;\nfn gv{k}() -> i32 {{ match Kv{k} {{ Some(e) => 1, None => 0 }} }}");
+                    }
+                    _ => {
+                        let _ = writeln!(s, "fn gv{k}(n: i32) -> i32 {{ if n > 0 {{ let l = [fv{k}(n)]; let o = Option.Some(fv{k}(n)); 1 }} else {{ 0 }} }}");
+                    }
+                }
+            }
             14 | 15 => {
                 // very many variants / fields / arms / parameters: whatever is stored in a byte
                 // somewhere runs out between 255 and 257
@@ -657,7 +698,20 @@ impl WorkerState for W {
         }
         eprintln!("@@ctx compile");
         let mut o = Outcome::pass();
-        match check_total(&self.rt, &files) {
+        // known finding C06-F18 is identified by its input: a panic on a text that declares an enum
+        // without variants gets a tag of its own, every other panic keeps the plain signature
+        let tagged = files.iter().any(|(_, t)| declares_enum_without_variants(t));
+        let result = match std::panic::catch_unwind(std::panic::AssertUnwindSafe(|| check_total(&self.rt, &files))) {
+            Ok(r) => r,
+            Err(payload) => {
+                if !tagged {
+                    std::panic::resume_unwind(payload);
+                }
+                let (loc, msg) = crate::worker::take_panic().unwrap_or(("?".into(), "?".into()));
+                Err((format!("panic:{}:{}:input-declares-an-enum-without-variants", crate::worker::short_loc(&loc), crate::worker::skeleton(&msg)), format!("panic at {loc}: {msg}")))
+            }
+        };
+        match result {
             Ok(class) => {
                 o.classes.push(format!("outcome:{class}"));
                 o.nontrivial = class != "parse-error" || total > 20;
